@@ -64,7 +64,10 @@ ASSUMPTIONS = [
 ROUTES = ['wsgi', 'sb']
 METHODS = ['prims', 'echo', 'inners', 'strict', 'noargs', 'multi']
 KINDS = ['bitflip', 'drop', 'dup', 'swap', 'zero', 'insert', 'trailing',
-         'random', 'empty', 'splice', 'splice', 'lose_block', 'truncate']
+         'random', 'empty', 'splice', 'splice', 'lose_block', 'charset',
+         'truncate']
+CHARSETS = ['latin-1', 'utf-16', 'utf-16-le', 'ascii', 'bogus-charset', '',
+            'utf-8-sig', 'cp037', 'idna', 'utf_7']
 
 # Burst damage inside a leaf value: what a value span looks like after a
 # multi-byte burst error / a torn write / a buffer re-use.  (The span keeps
@@ -273,6 +276,9 @@ def _draw_ops(case, data, rng):
                 ops.append(['drop', a, b - a])
             else:
                 ops.append(['drop', pos, rng.randint(3, 30)])
+        elif kind == 'charset':
+            # the Content-Type header lies about the encoding of the body
+            ops.append(['charset', rng.choice(CHARSETS)])
         elif kind == 'random':
             ops.append(['random', base64.b16encode(bytes(bytearray(
                 rng.randint(0, 255) for _ in range(rng.randint(1, 40)))))
@@ -318,6 +324,8 @@ def apply_op(data, op):
         return base64.b16decode(op[1])
     if k == 'empty':
         return b''
+    if k == 'charset':
+        return data
     if k == 'splice':
         tok = SPLICE_TOKENS[op[3] % len(SPLICE_TOKENS)]
         return data[:op[1]] + tok + data[op[2]:]
@@ -371,6 +379,8 @@ def _one(case, uni, ctl, srv, out_prot, req, data, op, seam):
                                                                   req.label)
     else:
         r = req.with_body(bad)
+    if op[0] == 'charset' and r.ctype is not None:
+        r.ctype = '%s; charset=%s' % (r.ctype.split(';')[0], op[1])
     before = ctl.n_calls()
     del seam.sites[:]
     status = None
